@@ -3,6 +3,7 @@ package c07
 import (
 	"fmt"
 	"testing"
+	"time"
 
 	shop "github.com/flant/shell-operator/pkg/shell-operator"
 	"github.com/flant/shell-operator/pkg/task"
@@ -18,10 +19,14 @@ type ConcCase struct {
 	Layout   Case       `json:"layout"`
 	Appended []TaskSpec `json:"appended"`
 	Twin     string     `json:"twin"` // exported internal
+	// During: "" = the tasks are appended in the gap between scan and filter pass; "filter-pass" = the appender
+	// calls AddLast while the filter pass is running (it has to wait for the queue's lock)
+	During string `json:"during,omitempty"`
 }
 
 func genConc(t *rapid.T) ConcCase {
 	c := ConcCase{Layout: gen(t), Twin: rapid.SampledFrom([]string{"exported", "internal"}).Draw(t, "twin")}
+	c.During = rapid.SampledFrom([]string{"", "filter-pass"}).Draw(t, "during")
 	n := rapid.IntRange(1, 4).Draw(t, "nappend")
 	for i := 0; i < n; i++ {
 		ts := TaskSpec{Hook: rapid.SampledFrom([]string{"h1", "h2", "h3"}).Draw(t, "ahook"), Type: rapid.SampledFrom(taskTypes).Draw(t, "atype")}
@@ -60,7 +65,27 @@ func runConc(c ConcCase) (ev.Info, error) {
 		}
 	}
 	parked := s.Step(comb)
-	if parked && comb.Point == "combine.afterScan" {
+	if parked && comb.Point == "combine.afterScan" && c.During == "filter-pass" {
+		// into the filter pass: the step parks inside its first predicate call, holding the queue's lock
+		if s.Step(comb) && comb.Point == "combine.inFilter" {
+			app := s.Spawn("APPEND", appendLate)
+			st := s.StepB(app)
+			for !comb.Done {
+				s.StepB(comb)
+			}
+			if st == sched.Blocked {
+				info.Labels = append(info.Labels, "appender-waited-for-the-filter-pass")
+				if s.WaitUnblocked(app, 10*time.Second) != sched.Done {
+					s.Finish(app)
+				}
+			} else if !app.Done {
+				s.Finish(app)
+			}
+		} else {
+			s.Finish(comb)
+			appendLate()
+		}
+	} else if parked && comb.Point == "combine.afterScan" {
 		appendLate()
 		info.Labels = append(info.Labels, "appended-between-scan-and-filter")
 		s.Finish(comb)
@@ -110,7 +135,7 @@ func taskIDs(ts []task.Task) []string {
 
 var _ = queue.Success
 
-const ruleConc = "the C07 layouts with the combine step run as an actor of the cooperative scheduler: it parks at the yield between its scan (Iterate) and its removal pass (Filter), 1-4 tasks (same hook/type as the head with probability 2/3) are appended with AddLast, then it finishes; oracle: contexts are those of the original layout, the queue holds the original remainder followed by every appended task, in order. Non-trivial: at least one task was merged."
+const ruleConc = "the C07 layouts with the combine step run as an actor of the cooperative scheduler: it parks at the yield between its scan (Iterate) and its removal pass (Filter), 1-4 tasks (same hook/type as the head with probability 2/3) are appended with AddLast, then it finishes; in half of the cases the appender instead calls AddLast while the filter pass is running and has to wait for the queue's lock; oracle: contexts are those of the original layout, the queue holds the original remainder followed by every appended task, in order. Non-trivial: at least one task was merged."
 
 func TestConcurrentAppend(t *testing.T) {
 	ev.Main(t, ev.Spec[ConcCase]{Property: "C07", Part: "concurrent", Rule: ruleConc, Gen: genConc, Run: runConc})
